@@ -192,7 +192,7 @@ def flatten(pkg, top_name=None, tag_params=None):
                 if dom in ("vlsir.primitives", "hdl21.primitives"):
                     cell = "prim:" + nm
                 else:
-                    cell = "ext:" + nm
+                    cell = "ext:" + nm + ("@" + dom if dom != "verif" else "")
                 tagname = tag_params.get(cell, "tag")
                 tv = params.get(tagname)
                 tag = None
